@@ -1,16 +1,97 @@
 /-
   PCV.Model.DrvC13 — driver requests of property C13 (op names start with "c13.").
+    c13.tspec      lam d0 d1 n q [hint]   -> ok t=some(k)|none          (`tSpec`, the specification)
+    c13.calct      lam d0 d1 n q [hint]   -> ok t=k | err invalidParameters   (`calculate_t`)
+    c13.bound      lam d0 d1 n q t        -> ok b=0|1
+    c13.indices    n bytes=[[..],..]      -> ok idx=[..] nbytes=k
+    c13.rs         msg omega len          -> ok cw=[..] len=k
+    c13.dimensions N t                    -> ok n=.. m=..
+    c13.brakedown  m mext adims bdims start stop amats bmats msg -> ok cw=[..] | err <kind>
 -/
 import PCV.Model.Wire
 import PCV.Model.DrvUtil
+import PCV.Model.CalcT
+import PCV.Model.RS
+import PCV.Model.Dimensions
+import PCV.Model.BrakedownEnc
 namespace PCV
 namespace DrvC13
+open Driver LinCode
+
+variable {p : Nat}
+
+def optNat (r : Req) (k : String) (d : Nat) : R Nat :=
+  match r.get? k with
+  | some v => asNat v
+  | none => .ok d
+
+def asPair (v : Val) : R (Nat × Nat) := do
+  match ← asNats v with
+  | [a, b] => pure (a, b)
+  | _ => .error "expected-pair"
+
+def asEntry (v : Val) : R (Nat × Fp p) := do
+  match ← asList v with
+  | [a, b] => pure (← asNat a, ← asFe b)
+  | _ => .error "expected-entry"
+
+def asMat (v : Val) : R (SprsMat (Fp p)) := do
+  let cols ← (← asList v).mapM fun c => do (← asList c).mapM asEntry
+  pure ⟨cols⟩
+
+def asBParams (r : Req) : R (BParams (Fp p)) := do
+  pure {
+    m := ← asNat (← need r "m")
+    mExt := ← asNat (← need r "mext")
+    aDims := ← (← asList (← need r "adims")).mapM asPair
+    bDims := ← (← asList (← need r "bdims")).mapM asPair
+    start := ← asNats (← need r "start")
+    stop := ← asNats (← need r "stop")
+    aMats := ← (← asList (← need r "amats")).mapM asMat
+    bMats := ← (← asList (← need r "bmats")).mapM asMat }
+
+def vOptNat (x : Option Nat) : Val := match x with | none => .none | some y => .some (.n y)
+
+def handle' (r : Req) : R String := do
+  match r.op with
+  | "c13.tspec" =>
+    let lam ← asNat (← need r "lam"); let d0 ← asNat (← need r "d0"); let d1 ← asNat (← need r "d1")
+    let n ← asNat (← need r "n"); let q ← asNat (← need r "q"); let hint ← optNat r "hint" 0
+    pure <| okReply [("t", vOptNat (tSpecFast lam d0 d1 n q hint))]
+  | "c13.calct" =>
+    let lam ← asNat (← need r "lam"); let d0 ← asNat (← need r "d0"); let d1 ← asNat (← need r "d1")
+    let n ← asNat (← need r "n"); let q ← asNat (← need r "q"); let hint ← optNat r "hint" 0
+    pure <| exceptReply (calcT lam d0 d1 n q hint) fun t => [("t", .n t)]
+  | "c13.bound" =>
+    let lam ← asNat (← need r "lam"); let d0 ← asNat (← need r "d0"); let d1 ← asNat (← need r "d1")
+    let n ← asNat (← need r "n"); let q ← asNat (← need r "q"); let t ← asNat (← need r "t")
+    pure <| okReply [("b", vBool (boundHolds lam d0 d1 n q t))]
+  | "c13.indices" =>
+    let n ← asNat (← need r "n")
+    let bytes ← (← asList (← need r "bytes")).mapM asNats
+    if n = 0 then pure (errReply .abort)   -- `ind % 0` panics
+    else pure <| okReply [("idx", vNats (getIndices n bytes)), ("nbytes", .n (getNumBytes n))]
+  | "c13.rs" =>
+    let msg ← asFes (p := p) (← need r "msg")
+    let ω ← asFe (p := p) (← need r "omega")
+    let len ← asNat (← need r "len")
+    let cw := rsEncode ω len msg
+    pure <| okReply [("cw", vFes cw), ("len", .n cw.length)]
+  | "c13.dimensions" =>
+    let N ← asNat (← need r "N"); let t ← asNat (← need r "t")
+    if t = 0 then pure (errReply .abort)   -- `ceil_div(_, 0)` divides by zero
+    else
+      let d := computeDimensions N t
+      pure <| okReply [("n", .n d.1), ("m", .n d.2)]
+  | "c13.brakedown" =>
+    let pp ← asBParams (p := p) r
+    let msg ← asFes (p := p) (← need r "msg")
+    pure <| exceptReply (encode pp msg) fun cw => [("cw", vFes cw), ("len", .n cw.length)]
+  | _ => .error "unknown-op"
 
 /-- `none` = not an op of this module -/
 def handle (p : Nat) (r : Req) : Option (Except String String) :=
-  let _ := p
-  let _ := r
-  none
+  if r.op.startsWith "c13." then some (handle' (p := p) r) else none
 
 end DrvC13
 end PCV
